@@ -20,7 +20,7 @@ try:
         print(name, c, "exit", p.returncode, "VIOLATION lines", len(v))
         for f in first: print("   ", f[:260])
 finally:
-    subprocess.run("git -C /repo checkout -- .", shell=True)
+    subprocess.run("git -C /repo checkout -- . && git -C /repo clean -fdq -- embedded-cli/src embedded-cli-macros/src", shell=True)
 meta = json.load(open(os.path.join(d, "meta.json")))
 meta.setdefault("check_results", {}).update(res)
 meta["detected_by"] = sorted(c for c, r in meta["check_results"].items() if r["exit"] == 1)
